@@ -7,8 +7,11 @@
 set -u
 ROOT="$(cd "$(dirname "$0")/.." && pwd)"
 target="$1"; prop="$2"; seed="$3"; runs="$4"; jobs="$5"; out="$6"
+# the `values` target takes its oracle set from VERIF_FUZZ_PROP and its artifacts are named values.<prop>
+label="$target"; extra=""
+if [ "$target" = values ]; then export VERIF_FUZZ_PROP="$prop"; label="values.$prop"; extra="-use_value_profile=1"; fi
 export CARGO_NET_OFFLINE=true
-work="$ROOT/target/fuzz-work/$target"
+work="$ROOT/target/fuzz-work/$label"
 rm -rf "$work"; mkdir -p "$work/corpus" "$work/artifacts" "$work/logs"
 cp "$ROOT/fuzz/seeds/$target/"* "$work/corpus/" 2>/dev/null
 status="ok"; execs=0; crashes=0; confirmed=0; cov=0
@@ -16,7 +19,7 @@ lfseed=$(( (seed % 2000000000) + 1 ))
 if ! (cd "$ROOT/fuzz" && cargo +nightly fuzz build --fuzz-dir . "$target" >"$work/build.log" 2>&1); then
   status="inconclusive: cargo fuzz build failed (see $work/build.log)"
 else
-  maxlen=256; case "$target" in parse) maxlen=420;; roundtrip) maxlen=300;; esac
+  maxlen=256; case "$target" in parse) maxlen=420;; roundtrip) maxlen=300;; values) maxlen=26;; esac
   bin=$(ls "$ROOT"/fuzz/target/*/release/"$target" 2>/dev/null | head -1)
   if [ -z "$bin" ]; then
     status="inconclusive: fuzz binary not found after build"
@@ -26,7 +29,7 @@ else
     for j in $(seq 1 "$jobs"); do
       mkdir -p "$work/corpus-$j"; cp "$work/corpus/"* "$work/corpus-$j/" 2>/dev/null
       ( cd "$work/logs" && timeout 3000 "$bin" "$work/corpus-$j" -runs="$runs" -seed=$((lfseed + j)) -max_len="$maxlen" -len_control=0 \
-          -artifact_prefix="$work/artifacts/j$j-" -print_final_stats=1 -timeout=20 -rss_limit_mb=4096 >"$work/logs/fuzz-$j.log" 2>&1; echo $? >"$work/logs/rc-$j" ) &
+          -artifact_prefix="$work/artifacts/j$j-" $extra -print_final_stats=1 -timeout=20 -rss_limit_mb=4096 >"$work/logs/fuzz-$j.log" 2>&1; echo $? >"$work/logs/rc-$j" ) &
       pids="$pids $!"
     done
     wait $pids
@@ -42,7 +45,7 @@ else
     crashes=$((crashes+1))
     h=$(sha1sum "$a" | cut -c1-16)
     mkdir -p "$ROOT/replays/$prop"
-    dest="$ROOT/replays/$prop/fuzz-$target-$h.bin"
+    dest="$ROOT/replays/$prop/fuzz-$label-$h.bin"
     cp "$a" "$dest"
     r1=0; r2=0
     "$ROOT/target/checked/sqldt-verif" replay "$dest" >"$work/replay.log" 2>&1 || r1=$?
@@ -58,7 +61,7 @@ else
   done
 fi
 cat >"$out" <<JSON
-{"engine":"libFuzzer via cargo-fuzz (overflow checks and debug assertions on)","target":"$target","jobs":$jobs,"runs_per_job":$runs,"seed":$lfseed,"executions":$execs,"max_coverage_edges":$cov,"artifacts":$crashes,"confirmed_violations":$confirmed,"status":"$status"}
+{"engine":"libFuzzer via cargo-fuzz (overflow checks and debug assertions on)","target":"$label","jobs":$jobs,"runs_per_job":$runs,"seed":$lfseed,"executions":$execs,"max_coverage_edges":$cov,"artifacts":$crashes,"confirmed_violations":$confirmed,"status":"$status"}
 JSON
 [ $confirmed -gt 0 ] && exit 1
 exit 0
